@@ -9,17 +9,21 @@ positive volume per face-connected body for normal repair; closed hole edges, ke
 added faces on the hole boundary only, consistent winding and the original volume for planar
 holes for hole filling).
 
-code -> spec: Python enumerates closed lattice surfaces (tetrahedra, octahedron, cube, two
-disjoint bodies, a genus-1 3x3 torus) and an open sheet, all on coordinates that are multiples of
-four, in seeded presentations (vertex relabelling, face order, rotation of every index triple,
-translation), re-winds subsets of faces / removes faces / selects face subsets / picks bounds,
-calls the real
+code -> spec: Python enumerates closed lattice surfaces (tetrahedra, octahedra, cube, two
+disjoint bodies, a genus-1 3x3 torus) and open sheets, all on coordinates that are multiples of
+four, once more refined for a second round of subdivision, in seeded presentations (vertex
+relabelling, face order, rotation of every index triple, translation), re-winds subsets of faces
+(every subset of the small surfaces) / removes one or two faces / selects face subsets / picks
+bounds and iteration caps, calls the real
   Trimesh.fix_normals(multibody=None|True|False), repair.fix_winding, repair.fix_inversion,
   Trimesh.fill_holes, Trimesh.subdivide / remesh.subdivide (face_index=None|subset),
   Trimesh.subdivide_to_size(max_edge, max_iter, return_index), Trimesh.subdivide_loop
 on a fresh Trimesh(process=False) (optionally with its cache warmed first), projects the arrays
 before and after to integers (result coordinates over a common power-of-two denominator, exact)
 and has TLC validate every record in batch.  Python computes no expected value.
+
+Known finding FillHolesQuadDiagonalIsExistingEdge: records rejected by a fill_holes clause for which
+Repair.tla's input-only predicate QuadDiagonalIsExistingEdge holds are attributed to it.
 """
 import itertools
 import json
